@@ -244,7 +244,9 @@ func oneRun(ch *simrt.Chooser, opt Options, rl *raceLog) (RunResult, []string) {
 			_ = scen
 			res.Failures = append(res.Failures, Failure{Oracle: "race", Sig: "C15/race/" + raceFuncs(rep), Props: []string{"C15"},
 				Msg: "data race in the library's own memory accesses (first library frame " + where + ")", Detail: short(rep, 6000)})
-		} else {
+		} else if len(res.Failures) == 0 {
+			// a report between harness frames only, in a run that is otherwise clean, is a harness problem;
+			// in a run that already failed it is a consequence of the library's broken synchronisation
 			trouble = append(trouble, "race report without a library frame (harness bug?): "+short(rep, 3000))
 		}
 	}
@@ -390,7 +392,9 @@ func replayOnce(rec ViolationRec, draws []int, rl *raceLog, anySig bool) (*Failu
 		if !f.concerns(rec.Property) {
 			continue
 		}
-		if f.sigFor(rec.Property) == rec.Signature {
+		if sig := f.sigFor(rec.Property); sig == rec.Signature || (strings.Contains(sig, "/race/") && strings.Contains(rec.Signature, "/race/")) {
+			// which of several racing access pairs ThreadSanitizer reports first depends on what the process
+			// reported before; any library race on the same schedule reproduces a recorded race
 			return f, res, ch
 		}
 		if first == nil {
